@@ -23,6 +23,8 @@ func c18(tier string) []*explore.Scenario {
 		bound = 2
 	}
 	out = append(out, c18Delivery(2, 2, bound, false), c18Delivery(2, 2, 0, true), c18Delivery(3, 1, bound-0, false))
+	// the statement's full range of keys: one arrival order, schedules searched
+	out = append(out, c18DeliveryO(8, 2, 1, false, true), c18DeliveryO(8, 3, 0, true, true), c18DeliveryO(5, 1, 0, false, false))
 	if tier == "thorough" {
 		out = append(out, c18Delivery(3, 2, 1, false), c18Delivery(8, 1, 0, false))
 	}
@@ -110,9 +112,19 @@ func c18Msg(id uint64, key string) *env.Rpc {
 
 // c18Delivery: nk keys x per envelopes each, every arrival interleaving.
 func c18Delivery(nk, per, bound int, lateConsumers bool) *explore.Scenario {
+	return c18DeliveryO(nk, per, bound, lateConsumers, false)
+}
+
+// roundRobin: one fixed arrival order (k0,k1,..,k0,k1,..) instead of every interleaving - for the
+// statement's larger key counts, where the schedule search is what is affordable.
+func c18DeliveryO(nk, per, bound int, lateConsumers, roundRobin bool) *explore.Scenario {
 	fam := "C18/delivery"
+	name := fmt.Sprintf("C18/delivery/keys=%d/per=%d/late=%v", nk, per, lateConsumers)
+	if roundRobin {
+		name += "/round-robin"
+	}
 	return &explore.Scenario{
-		Name: fmt.Sprintf("C18/delivery/keys=%d/per=%d/late=%v", nk, per, lateConsumers), Family: fam, Prop: "C18", Bound: bound, MaxExecs: 2000000,
+		Name: name, Family: fam, Prop: "C18", Bound: bound, MaxExecs: 2000000,
 		Run: func() {
 			e := newC18(!lateConsumers)
 			vsched.Settle()
@@ -135,7 +147,17 @@ func c18Delivery(nk, per, bound int, lateConsumers bool) *explore.Scenario {
 					if len(avail) == 0 {
 						return
 					}
-					k := avail[vsched.Choose(len(avail))]
+					var k int
+					if roundRobin {
+						k = avail[0]
+						for _, a := range avail {
+							if remaining[a] > remaining[k] {
+								k = a
+							}
+						}
+					} else {
+						k = avail[vsched.Choose(len(avail))]
+					}
 					remaining[k]--
 					id++
 					key := fmt.Sprintf("k%d", k)
